@@ -2240,7 +2240,7 @@ class SShape(Term):
             x <= self.start,
             0.0,
             np.where(
-                x <= 0.5 * (s + e),
+                (x <= 0.5 * (s + e)) & (x < e),
                 2.0 * np.square((x - s) / (e - s)),
                 np.where(
                     x < e,
